@@ -88,3 +88,102 @@ pub(crate) mod k {
         assert!(e.len() == n, "extract keeps exactly the cells inside the box");
     }
 }
+
+#[cfg(all(svgbob_verif, test))]
+pub(crate) mod b {
+    use super::*;
+    use crate::buffer::CellBuffer;
+    use std::collections::BTreeMap;
+
+    /// label characters: no drawing meaning in any table
+    fn is_label(ch: char) -> bool {
+        "abcdefghijklmnpqrstuwyzABCDEFGHIJKLMNPQRSTUWYZ".contains(ch)
+    }
+
+    /// C04 at the level of `CellBuffer::get_fragment_spans` (what endorsement leaves over must keep its cell):
+    /// every label character of the input is shown by exactly one text fragment, at its own cell
+    fn check_labels(text: &str, what: &str) -> u64 {
+        let cb = CellBuffer::from(text);
+        let want: BTreeMap<Cell, char> = cb.iter().filter(|(_, ch)| is_label(**ch)).map(|(c, ch)| (*c, *ch)).collect();
+        let (accepted, rejects) = cb.get_fragment_spans();
+        let mut frags: Vec<Fragment> = accepted.into_iter().map(|f| f.fragment).collect();
+        for sp in rejects {
+            frags.extend(<Vec<crate::buffer::Contacts>>::from(sp).into_iter().flat_map(|c| c.0.into_iter().map(|f| f.fragment)));
+        }
+        let mut got: BTreeMap<Cell, Vec<char>> = BTreeMap::new();
+        for f in &frags {
+            if let Fragment::CellText(t) = f {
+                // quoted text is kept apart from the cell map (C15): not a label of a cell
+                if cb.escaped_text.iter().any(|(c, s)| *c == t.start && *s == t.content) {
+                    continue;
+                }
+                let mut x = t.start.x;
+                for ch in t.content.chars() {
+                    if is_label(ch) {
+                        got.entry(Cell::new(x, t.start.y)).or_default().push(ch);
+                    }
+                    x += unicode_width::UnicodeWidthChar::width(ch).unwrap_or(1).max(1) as i32;
+                }
+            }
+        }
+        for (cell, ch) in &want {
+            if got.get(cell) != Some(&vec![*ch]) {
+                println!("BOUNDED-WITNESS {}: label {:?} of cell {} is shown as {:?}\n{}", what, ch, cell, got.get(cell), text);
+                panic!("every label character exactly once, in its own cell");
+            }
+        }
+        for (cell, chs) in &got {
+            if !want.contains_key(cell) {
+                println!("BOUNDED-WITNESS {}: text {:?} shown at cell {} where the input has no label\n{}", what, chs, cell, text);
+                panic!("no label is shifted into another cell");
+            }
+        }
+        want.len() as u64
+    }
+
+    #[test]
+    fn bounded_labels_conserved() {
+        let mut n = 0u64;
+        // (a) the diagrams bundled with the repository
+        let dir = std::path::Path::new(env!("CARGO_MANIFEST_DIR")).join("test_data");
+        let mut files: Vec<_> = std::fs::read_dir(&dir).map(|d| d.filter_map(|e| e.ok()).map(|e| e.path()).collect()).unwrap_or_else(|_| vec![]);
+        files.sort();
+        for f in files {
+            if f.extension().map(|e| e == "bob").unwrap_or(false) {
+                let text = std::fs::read_to_string(&f).unwrap();
+                let body = match text.find("# Legend:") { Some(i) => &text[..i], None => &text[..] };
+                n += check_labels(body, &format!("{:?}", f.file_name().unwrap()));
+            }
+        }
+        // (b) circle / arc drawings (whole, upper part, lower part, left part) with labels touching them, at offsets
+        for (idx, (art, _e, _x, _y, _c)) in crate::map::circle_map::__verif::catalogue().iter().enumerate() {
+            let lines: Vec<&str> = art.lines().filter(|l| !l.trim().is_empty()).collect();
+            let indent = lines.iter().map(|l| l.len() - l.trim_start().len()).min().unwrap_or(0);
+            let rows: Vec<String> = lines.iter().map(|l| l[indent..].trim_end().to_string()).collect();
+            let h = rows.len();
+            let parts: Vec<Vec<String>> = vec![
+                rows.clone(),
+                rows[..(h + 1) / 2].to_vec(),
+                rows[h / 2..].to_vec(),
+                rows.iter().map(|r| r.chars().take((r.chars().count() + 1) / 2).collect()).collect(),
+            ];
+            for (pi, part) in parts.iter().enumerate() {
+                for (dx, dy) in [(0usize, 0usize), (7, 2), (3, 5)] {
+                    for label_row in [0usize, part.len() - 1] {
+                        let mut text = "\n".repeat(dy);
+                        for (r, row) in part.iter().enumerate() {
+                            text.push_str(&" ".repeat(dx));
+                            text.push_str(row);
+                            if r == label_row {
+                                text.push_str("ab");
+                            }
+                            text.push('\n');
+                        }
+                        n += check_labels(&text, &format!("catalogue drawing #{} part {} at ({},{})", idx, pi, dx, dy));
+                    }
+                }
+            }
+        }
+        println!("BOUNDED-CASES {}", n);
+    }
+}
